@@ -1,4 +1,5 @@
 import Flurry.Lemmas.RwLock
+import Flurry.Proto.RwLockMonitor
 /-! # C11 — every operation terminates under any fair schedule
 
 **Strength: partial.** Proved, for any number of readers and every interleaving of the tree-bin
@@ -40,5 +41,31 @@ theorem parked_writer_woken {n : Nat} {s s' : State} (h : Reachable n s) (hp : s
 /-- the lock is a lock: no reader searches the tree while the writer restructures it -/
 theorem writer_excludes_tree_readers {n : Nat} {s : State} (h : Reachable n s)
     (hw : s.wpc = .hold ∨ s.wpc = .swapOut) : numHolding s.readers = 0 := mutual_exclusion h hw
+
+/-- **The tie to the code.** The harness replays, for every tree bin of every scheduled run, the
+bin's `lock_state` / `waiter` / park / unpark accesses through `Proto/RwLockMonitor`. Whatever
+stream the monitor accepted (without a spurious wake-up), the state it ends in is a reachable
+state of the model, so the theorems above hold of it: in particular the run's abstract lock
+state is not stuck, a writer about to park there has its wake-up on the way, and no reader
+searches the tree while the writer restructures it. -/
+theorem accepted_stream_theorems {n : Nat} (evs : List Flurry.Proto.RwLockMonitor.Ev)
+    (m : Flurry.Proto.RwLockMonitor.M n)
+    (hrun : Flurry.Proto.RwLockMonitor.run (Flurry.Proto.RwLockMonitor.start n) evs 0 = .ok m)
+    (hs : m.spurious = 0) :
+    Reachable n m.s.1 ∧ (∃ a more s', step m.s.1 a more = some s') ∧
+    ((m.s.1.wpc = .hold ∨ m.s.1.wpc = .swapOut) → numHolding m.s.1.readers = 0) ∧
+    (m.s.1.wpc = .park → m.s.1.token = false →
+      (1 ≤ numHolding m.s.1.readers ∧ m.s.1.waiterSet = true) ∨ (∃ i : Nat, m.s.1.readers[i]? = some RPc.unpark) ∨
+      (∃ i : Nat, m.s.1.readers[i]? = some RPc.loadWaiter ∧ m.s.1.waiterSet = true)) := by
+  have h := Flurry.Proto.RwLockMonitor.accepted_is_reachable evs m hrun hs
+  exact ⟨h, not_stuck h, mutual_exclusion h, Flurry.Proto.RwLock.no_lost_wakeup h⟩
+
+/-- a real stream (recorded from `harness conc --mode tree`: a writer that has to wait for a
+reader and is woken by it) is accepted -/
+example : Flurry.Proto.RwLockMonitor.accept 3 true
+    [⟨1, .ld, 0, 0, 0⟩, ⟨1, .y, 0, 4, 0⟩, ⟨0, .cas, 0, 1, 4⟩, ⟨0, .ld, 0, 0, 4⟩, ⟨0, .cas, 4, 6, 4⟩,
+     ⟨0, .wsw, 1, 0, 0⟩, ⟨0, .ld, 0, 0, 6⟩, ⟨1, .fa, -4, 0, 6⟩, ⟨1, .wld, 0, 0, 1⟩, ⟨1, .unpark, 0, 0, 0⟩,
+     ⟨0, .park, 0, 0, 0⟩, ⟨0, .ld, 0, 0, 2⟩, ⟨0, .cas, 2, 1, 2⟩, ⟨0, .wsw, 0, 0, 1⟩, ⟨0, .st, 0, 0, 1⟩]
+    = "ok wlocks=1 waits=1 rlocks=1 slow=0 wakes=1 spurious=0" := by decide
 
 end Flurry.C11
